@@ -12,6 +12,7 @@ import (
 	"math/rand"
 	"runtime"
 	"sort"
+	"strings"
 	"sync"
 	"sync/atomic"
 	"time"
@@ -634,10 +635,86 @@ func main() {
 		lazyStart(res, p, 8, vkit.N(1500, 40000))
 		lazyStart(res, p, 2, vkit.N(500, 10000))
 	}
+	concurrentBuild(res, vkit.N(400, 8000))
 	if res.Counter("profiles_fractional_seconds") < 10 || res.Counter("profiles_line") < 10 {
 		res.Inconclusive(true, "too few fractional-second or line profiles judged")
 	}
 	res.Write()
+}
+
+// concurrentBuild: several pools (and, with rps-per-instance, all instances of a pool) have their
+// schedules built from config at the same time. Profiles of the same type with different numbers
+// are decoded concurrently from 8 goroutines; every schedule must be exactly the one its own
+// section describes — same token count, token times and finish as the directly built profile.
+func concurrentBuild(res *vkit.Result, rounds int) {
+	profiles := []Profile{
+		{Kind: "const", Ops: 4, Duration: 5e8, ViaConf: true}, {Kind: "const", Ops: 30, Duration: 2e8, ViaConf: true},
+		{Kind: "line", From: 1, To: 9, Duration: 1e9, ViaConf: true}, {Kind: "line", From: 20, To: 2, Duration: 5e8, ViaConf: true},
+		{Kind: "once", Times: 3, ViaConf: true}, {Kind: "once", Times: 11, ViaConf: true},
+		{Kind: "step", From: 1, To: 3, Step: 1, Duration: 1e9, ViaConf: true}, {Kind: "step", From: 2, To: 10, Step: 4, Duration: 5e8, ViaConf: true},
+	}
+	t0 := time.Unix(1700000000, 0)
+	drain := func(s core.Schedule) string {
+		s.Start(t0)
+		var b strings.Builder
+		fmt.Fprintf(&b, "left=%d;", s.Left())
+		for i := 0; i < 200; i++ {
+			t, ok := s.Next()
+			fmt.Fprintf(&b, "%d,", t.Sub(t0))
+			if !ok {
+				break
+			}
+		}
+		return b.String()
+	}
+	want := make([]string, len(profiles))
+	for i, p := range profiles {
+		direct := p
+		direct.ViaConf = false
+		s, err := build(direct)
+		if err != nil {
+			res.Inconclusive(true, "cannot build %v: %v", p, err)
+			return
+		}
+		want[i] = drain(s)
+	}
+	var mu sync.Mutex
+	bad := map[int]string{}
+	built := int64(0)
+	for r := 0; r < rounds; r++ {
+		var wg sync.WaitGroup
+		start := make(chan struct{})
+		for g := 0; g < 8; g++ {
+			wg.Add(1)
+			go func(g int) {
+				defer wg.Done()
+				i := (g + r) % len(profiles)
+				<-start
+				s, err := build(profiles[i])
+				got := ""
+				if err != nil {
+					got = "rejected: " + err.Error()
+				} else {
+					got = drain(s)
+				}
+				atomic.AddInt64(&built, 1)
+				if got != want[i] {
+					mu.Lock()
+					if bad[i] == "" {
+						bad[i] = got
+					}
+					mu.Unlock()
+				}
+			}(g)
+		}
+		close(start)
+		wg.Wait()
+	}
+	for i, got := range bad {
+		res.Violate("C01/"+profiles[i].Kind+"/concurrent-build/profile", fmt.Sprintf("built from config while 7 other schedules were being built: %.300s — the section describes %.300s", got, want[i]), profiles[i])
+	}
+	res.Count("schedules_built_concurrently", built)
+	res.Eval("concurrent-build", true)
 }
 
 func estTokens(p Profile) float64 {
